@@ -1,7 +1,7 @@
 (* C03 -- a system: one extended-Lagrangian variable driven by any number of restraints, next to any number of
    plain variables restrained by any number of restraints and recorded by any number of histograms and ABMD biases. *)
 From Coq Require Import ZArith List Bool Lia Reals.
-From CV Require Import Base.Num Base.RNum C03.ResumeModel C03.ResumeProofs C06.RestraintModel C03.ObjectsModel
+From CV Require Import Base.Num Base.RNum C03.ResumeModel C03.ResumeProofs C03.ObjectsModel C03.UsesC06
   C03.RestraintResume C03.RestraintMachine C03.ObjectsProofs.
 Import ListNotations.
 Local Open Scope Z_scope.
@@ -11,9 +11,9 @@ Section System.
   Notation O := Rops.
 
   (* total force of a list of restraints on their first variable *)
-  Definition sumf (a : T) (os : list (@rout T)) : T :=
-    fold_left (fun a o => nadd O a (hd (n0 O) (o_forces o))) os a.
-  Definition sum_forces (os : list (@rout T)) : T := sumf (n0 O) os.
+  Definition sumf (a : T) (os : list (r_out T)) : T :=
+    fold_left (fun a o => nadd O a (hd (n0 O) (r_out_forces o))) os a.
+  Definition sum_forces (os : list (r_out T)) : T := sumf (n0 O) os.
 
   Definition sys_machine :=
     pair_machine
@@ -24,26 +24,26 @@ Section System.
   Lemma sumf_eq0 os : forall os' a, all2 (@r_out_eq0 T) os os' -> sumf a os = sumf a os'.
   Proof.
     unfold sumf. induction os as [|o r IH]; intros os' a H; destruct os' as [|o' r']; cbn [all2 fold_left] in *; try contradiction; auto.
-    destruct H as [[_ Hf] Hr]. rewrite Hf. apply IH; auto.
+    destruct H as [[_ Hf] Hr]. unfold r_out_forces. rewrite Hf. apply IH; auto.
   Qed.
   Lemma sumf_eq os : forall os' a, all2 (@r_out_eq T) os os' -> sumf a os = sumf a os'.
   Proof.
     unfold sumf. induction os as [|o r IH]; intros os' a H; destruct os' as [|o' r']; cbn [all2 fold_left] in *; try contradiction; auto.
-    destruct H as [Hf Hr]. unfold r_out_eq in Hf. rewrite Hf. apply IH; auto.
+    destruct H as [Hf Hr]. unfold r_out_eq in Hf. unfold r_out_forces. rewrite Hf. apply IH; auto.
   Qed.
   Lemma sum_forces_eq0 os os' : all2 (@r_out_eq0 T) os os' -> sum_forces os = sum_forces os'.
   Proof. apply sumf_eq0. Qed.
   Lemma sum_forces_eq os os' : all2 (@r_out_eq T) os os' -> sum_forces os = sum_forces os'.
   Proof. apply sumf_eq. Qed.
 
-  Definition sys_ok (c : (xcfg (T:=T) * list (@rcfg T)) * (list (@rcfg T) * (list (hcfg (T:=T)) * list (acfg (T:=T))))) : Prop :=
+  Definition sys_ok (c : (xcfg (T:=T) * list (r_cfg T)) * (list (r_cfg T) * (list (hcfg (T:=T)) * list (acfg (T:=T))))) : Prop :=
     Forall r_ok (snd (fst c)) /\ Forall r_ok (fst (snd c)) /\ Forall h_ok (fst (snd (snd c))) /\ Forall (fun _ => True) (snd (snd (snd c))).
 
   Definition sys_out_eq0 :=
-    pair_rel (@xl_out_eq T (list (@rout T)) (all2 (@r_out_eq0 T)))
+    pair_rel (@xl_out_eq T (list (r_out T)) (all2 (@r_out_eq0 T)))
       (pair_rel (all2 (@r_out_eq0 T)) (pair_rel (all2 (@eq (list Z))) (all2 (@eq (T * T))))).
   Definition sys_out_eq :=
-    pair_rel (@xl_out_eq T (list (@rout T)) (all2 (@r_out_eq T)))
+    pair_rel (@xl_out_eq T (list (r_out T)) (all2 (@r_out_eq T)))
       (pair_rel (all2 (@r_out_eq T)) (pair_rel (all2 (@eq (list Z))) (all2 (@eq (T * T))))).
   Definition sys_saved_eq :=
     pair_rel (fun v v' : xsaved (T:=T) * list (rsaved (T:=T)) => fst v = fst v' /\ all2 eq (snd v) (snd v'))
